@@ -95,3 +95,146 @@ def replay_history(model, params, role):
         got = [l.split()[1] for l in out.splitlines() if l.startswith("next ")]
         return got != want
     return "\n".join(lines) + "\n", pred, f"history replayed natively; round-robin reference expects {want}"
+
+
+# ------------------------------------------------------------------------------------------------
+# route_message / try_route_sync: the readiness sweep
+
+ORCH = "socket::patterns::outgoing_orchestrator::OutgoingMessageOrchestrator"
+DYN = "<dyn socket::connection_iface::ISocketConnection as socket::connection_iface::ISocketConnection>::"
+
+
+def _peer_of(v):
+    from ..models import _deref
+    v = _deref(v)
+    while isinstance(v, BoxV):
+        v = _deref(v.load())
+    return v.f[0]
+
+
+def route_sweep(h):
+    """OutgoingMessageOrchestrator::{try_route_sync, route_message} over 1..3 scripted peers whose readiness
+    (room in the peer's queue) is a symbolic boolean per peer and per epoch.
+    epoch 1 = the call's first poll; if the call parks in a blocking send, readiness changes (epoch 2) and the
+    call is polled again."""
+    from ..models import ok, err
+    maxp = h.params.get("max_peers", 3)
+    mode = h.choose(3, "mode")        # 0 try_route_sync; 1 route_message(wait_for_peer=false); 2 route_message(true), peers connect during the wait
+    n = 1 + h.choose(maxp, "peers")
+    j0 = h.choose(n, "cursor") if mode != 2 else 0
+    room = [[h.boolvar(f"room{e}_{i}") for i in range(n)] for e in (1, 2)]
+    ev = h.it.prog.enum_variants("error::ZmqError")
+    full = lambda: Enum("error::ZmqError", ev.index("ResourceLimitReached"), "ResourceLimitReached", [])
+    lb = Ref(Cell(h.method(LB, "new"), "lb"), ())
+    def add_all():
+        for i in range(n):
+            h.method(LB, "add_connection", lb, string(URIS[i]), BoxV(Cell(Agg("{peer}", [i]), f"peer{i}"), (), "{peer}"))
+    if mode != 2:
+        add_all()
+        for _ in range(j0):
+            h.method(LB, "get_next_connection", lb)
+    orch = Ref(Cell(Agg(ORCH, [lb.load()]), "orch"), ())
+    st = {"epoch": 0, "tried": [], "taken": {}, "delivered": [], "blocked_on": None, "waited": 0}
+    def try_send(it, args, dty, func):
+        i = _peer_of(args[0])
+        st["tried"].append(i)
+        if it.ctx.branch(room[st["epoch"]][i]):
+            st["taken"][i] = True
+            st["delivered"].append(("try", i))
+            return ok(UNIT)
+        st["taken"][i] = False
+        return err(Agg("tuple", [args[1], full()]))
+    def blocking_send(it, args, dty, func):
+        return Agg("{future}", ["send", _peer_of(args[0]), args[1]])
+    def wait_conn(it, args, dty, func):
+        return Agg("{future}", ["wait", None, None])
+    h.it.hooks[DYN + "try_send_multipart_owned_sync"] = try_send
+    h.it.hooks[DYN + "send_multipart_owned"] = blocking_send
+    h.it.hooks[LB + "::wait_for_connection"] = wait_conn
+    def extern(it, plain, args, dty, func):
+        if plain.endswith("Future>::poll"):
+            from ..models import _deref
+            fut = _deref(args[0])
+            while isinstance(fut, BoxV):
+                fut = _deref(fut.load())
+            if isinstance(fut, Agg) and fut.ty == "{future}":
+                kind, i, _ = fut.f
+                if kind == "wait":
+                    st["waited"] += 1
+                    add_all()                      # all n peers connect before the sender resumes
+                    return Enum("std::task::Poll", 0, "Ready", [ok(UNIT)])
+                st["blocked_on"] = i
+                if it.ctx.branch(room[st["epoch"]][i]):
+                    st["delivered"].append(("blocking", i))
+                    return Enum("std::task::Poll", 0, "Ready", [ok(UNIT)])
+                return Enum("std::task::Poll", 1, "Pending", [])
+            return NotImplemented
+        if plain.endswith("IntoFuture>::into_future") or plain.startswith("std::pin::Pin::"):
+            return args[0]
+        return NotImplemented
+    h.it.extern = extern
+    h.panic_role = "c13.route"
+    msgs = h.method("message::FrameBatch", "new")
+    if mode == 0:
+        r = h.method(ORCH, "try_route_sync", orch, msgs)
+        pending = False
+    else:
+        fn = h.it.prog.resolve_method("", ORCH, "route_message", None)
+        coro = Ref(Cell(h.it.run_body(h.it.prog.body(fn), [orch, msgs, mode == 2]), "coro"), ())
+        p = h.it.run_body(h.it.prog.body(fn + "::{closure#0}"), [coro, Opaque("cx")])
+        pending = p.vname == "Pending"
+        r = None if pending else p.f[0]
+    order = [(j0 + k) % n for k in range(n)]
+    tried = st["tried"]
+    # (a) the sweep visits the peers in rotation order, each at most once
+    h.check(tried == order[:len(tried)], "c13.route.sweep-order", f"peers tried {tried}, rotation order {order}")
+    # (b) exactly one delivery, or none
+    h.check(len(st["delivered"]) <= 1, "c13.route.message-sent-twice", str(st["delivered"]))
+    # (c) the call may park on a full peer b, or report 'no room', only if no other peer has room at that time.
+    #     Peers already tried were full on this path; the untried ones are unconstrained symbolic booleans.
+    untried = [i for i in range(n) if i not in tried]
+    b = st["blocked_on"]
+    if b is not None and pending:
+        oth = [bl(room[0][i]) for i in untried if i != b]
+        h.check(z3.Not(z3.Or(oth)) if oth else True, "c13.route.parks-on-a-full-peer-although-an-untried-peer-has-room",
+                f"mode {mode}, {n} peers, rotation {order}: tried only {tried}, then parked on peer {b} (full) while an untried peer has room")
+    if r is not None and r.idx == 1:
+        oth = [bl(room[0][i]) for i in untried]
+        h.check(z3.Not(z3.Or(oth)) if oth else True, "c13.route.reports-no-room-although-an-untried-peer-has-room",
+                f"mode {mode}, {n} peers, rotation {order}: tried only {tried}, then returned an error")
+    if r is not None and r.idx == 0:
+        h.check(len(st["delivered"]) == 1, "c13.route.ok-without-delivery")
+        h.cover("c13.route.delivered-on-fast-path", st["delivered"] and st["delivered"][0][0] == "try")
+        h.cover("c13.route.skipped-a-full-peer", st["delivered"] and st["delivered"][0][0] == "try" and len(tried) > 1)
+    if mode == 2:
+        h.check(st["waited"] == 1, "c13.route.wait-for-peer-count")
+        h.cover("c13.route.waited-for-first-peer")
+    if r is not None and r.idx == 1:
+        h.cover("c13.route.refused-when-all-full")
+    if not pending:
+        return
+    # ---- epoch 2: the call is parked in a blocking send on peer b (which is full); readiness changes
+    h.cover("c13.route.parked-on-a-full-peer")
+    b = st["blocked_on"]
+    st["epoch"] = 1
+    st["tried"], st["taken"] = [], {}
+    p = h.it.run_body(h.it.prog.body(fn + "::{closure#0}"), [coro, Opaque("cx")])
+    others = [room[1][i] for i in range(n) if i != b]
+    if p.vname == "Pending" and others:
+        # still parked on b (b is still full on this path): no OTHER peer may have room now
+        h.check(z3.Not(z3.Or([bl(o) for o in others])), "c13.route.parked-on-a-full-peer-while-another-peer-has-room",
+                f"{n} peers, all full during the sweep; the send parks on peer {b}; later another peer has room and peer {b} is still full: the send stays parked on {b}")
+    if p.vname == "Ready":
+        h.check(len(st["delivered"]) == 1, "c13.route.epoch2-delivery-count")
+        h.cover("c13.route.resumed-after-park")
+
+
+def replay_route_sweep(model, params, role):
+    ch = dict(map(tuple, model.get("_choices", [])))
+    mode, n, j0 = ch.get("mode", 0), 1 + ch.get("peers", 0), ch.get("cursor", 0)
+    def rooms(e):
+        return "".join("1" if model.get(f"room{e}_{i}") in (True, 1, "True", "true") else "0" for i in range(n))
+    script = f"route_sweep {mode} {n} {j0} {rooms(1)} {rooms(2)}\n"
+    if "parked-on-a-full-peer-while" in role:
+        return script, (lambda out: "PARKED while another peer has room" in out), "orchestrator with scripted peers; expecting the send to stay parked on a full peer while another has room"
+    return script, (lambda out: "PARKED while another peer has room" in out or "ERROR while a peer has room" in out), "orchestrator with scripted peers; expecting the send to park or fail although a peer has room"
